@@ -252,7 +252,7 @@ class Check:
 
     def finding_for(self, case_desc, matchers):
         """matchers: list of (finding id, predicate). A finding only counts if listed in KNOWN_FINDINGS.json."""
-        listed = {f["id"]: f for f in self.known.get("findings", []) if f.get("property") == self.pid}
+        listed = {f["id"]: f for f in self.known.get("findings", []) if f.get("property") == self.pid or self.pid in f.get("properties", [])}
         for fid, pred in matchers:
             if fid in listed and pred(case_desc):
                 return listed[fid]
